@@ -48,6 +48,11 @@ func c08Wrap(v *c08env) {
 		seen := map[ast.Node]bool{}
 		front := c08front(v, rsPkg)
 		c.Count("R-C08-6:interface methods in front of the breaker", len(front))
+		bound := c08boundParams(v, rsPkg, front)
+		c.Count("R-C08-6:function parameters bound to breaker methods", len(bound))
+		for o, m := range bound {
+			front[o] = m
+		}
 		for _, file := range rsPkg.Syntax {
 			for _, d := range file.Decls {
 				fd, ok := d.(*ast.FuncDecl)
@@ -611,6 +616,7 @@ func c08Proxy(v *c08env) {
 	}
 	// tests of the error against the sentinel
 	var tests []ast.Expr
+	var switchTests [][2]ast.Expr
 	for _, g := range bodies {
 		ast.Inspect(g.Body, func(n ast.Node) bool {
 			switch x := n.(type) {
@@ -621,6 +627,17 @@ func c08Proxy(v *c08env) {
 			case *ast.CallExpr:
 				if fo, ok := f.Callee(x).(*types.Func); ok && fo.FullName() == "errors.Is" && len(x.Args) == 2 && isSentinel(x.Args[1]) {
 					tests = append(tests, x)
+				}
+			case *ast.SwitchStmt:
+				// switch err { case resilience.ErrShortCircuited: .. }
+				if x.Tag != nil {
+					for _, cl := range x.Body.List {
+						for _, ce := range cl.(*ast.CaseClause).List {
+							if isSentinel(ce) {
+								switchTests = append(switchTests, [2]ast.Expr{x.Tag, ce})
+							}
+						}
+					}
 				}
 			}
 			return true
@@ -952,6 +969,11 @@ func c08Proxy(v *c08env) {
 	}
 
 	short := func(st *flow.State) flow.Val {
+		for _, t := range switchTests {
+			if val := st.Get(f.EqKey(t[0], t[1])); val != flow.Unknown {
+				return val
+			}
+		}
 		for _, t := range tests {
 			switch x := t.(type) {
 			case *ast.BinaryExpr:
@@ -1119,6 +1141,107 @@ func c08front(v *c08env, pkg *packages.Package) map[types.Object]types.Object {
 			m := iface.Method(i)
 			if o, _, _ := types.LookupFieldOrMethod(cbPtr, true, v.pkg.Types, m.Name()); o != nil {
 				out[m] = o
+			}
+		}
+	}
+	return out
+}
+
+// c08boundParams: dependency inversion — a function of pkg that receives the breaker's methods as
+// function values (guard(w.AcquirePermission, w.RecordResult, handler)). A function parameter is
+// mapped to the breaker method when EVERY call of the function in the package hands it a method
+// value of that method (directly, or of an interface in front of the breaker).
+func c08boundParams(v *c08env, pkg *packages.Package, front map[types.Object]types.Object) map[types.Object]types.Object {
+	out := map[types.Object]types.Object{}
+	info := pkg.TypesInfo
+	type key struct {
+		fn  *types.Func
+		idx int
+	}
+	seen := map[key]types.Object{} // nil value = conflicting / unknown argument
+	conflict := map[key]bool{}
+	for _, file := range pkg.Syntax {
+		ast.Inspect(file, func(n ast.Node) bool {
+			call, ok := n.(*ast.CallExpr)
+			if !ok {
+				return true
+			}
+			fo, ok := typeutil.Callee(info, call).(*types.Func)
+			if !ok || fo.Pkg() != pkg.Types {
+				return true
+			}
+			for i, a := range call.Args {
+				if _, isSig := info.TypeOf(a).Underlying().(*types.Signature); !isSig {
+					continue
+				}
+				k := key{fo, i}
+				var m types.Object
+				if sel, ok := ast.Unparen(a).(*ast.SelectorExpr); ok {
+					if sl := info.Selections[sel]; sl != nil && sl.Kind() == types.MethodVal {
+						m = sl.Obj()
+						if fm, ok := front[m]; ok {
+							m = fm
+						}
+					}
+				}
+				isBreaker := m != nil && (m == types.Object(v.meth["AcquirePermission"]) || m == types.Object(v.meth["RecordResult"]))
+				switch {
+				case !isBreaker:
+					if _, had := seen[k]; had {
+						conflict[k] = true
+					}
+				case seen[k] != nil && seen[k] != m:
+					conflict[k] = true
+				default:
+					seen[k] = m
+				}
+			}
+			return true
+		})
+	}
+	for k, m := range seen {
+		if m == nil || conflict[k] {
+			continue
+		}
+		fd := declOf(pkg, k.fn)
+		if fd == nil || fd.Type.Params == nil {
+			continue
+		}
+		// every call of the function must bind the parameter: count the calls
+		calls, bindings := 0, 0
+		for _, file := range pkg.Syntax {
+			ast.Inspect(file, func(n ast.Node) bool {
+				if call, ok := n.(*ast.CallExpr); ok && typeutil.Callee(info, call) == types.Object(k.fn) {
+					calls++
+					if k.idx < len(call.Args) {
+						if sel, ok := ast.Unparen(call.Args[k.idx]).(*ast.SelectorExpr); ok {
+							if sl := info.Selections[sel]; sl != nil && sl.Kind() == types.MethodVal {
+								mm := sl.Obj()
+								if fm, ok := front[mm]; ok {
+									mm = fm
+								}
+								if mm == m {
+									bindings++
+								}
+							}
+						}
+					}
+				}
+				return true
+			})
+		}
+		if calls == 0 || calls != bindings {
+			continue
+		}
+		idx := 0
+		for _, fl := range fd.Type.Params.List {
+			for _, name := range fl.Names {
+				if idx == k.idx {
+					if o := info.Defs[name]; o != nil {
+						out[o] = m
+					}
+				}
+				idx++
 			}
 		}
 	}
